@@ -127,8 +127,8 @@ scanline = np.dtype([("scan_line_number", ">u2"),
                      ("spacecraft_altitude_above_reference_ellipsoid", ">u2"),
                      ("angular_relationships", ">i2", (153, )),
                      ("zero_fill3", ">i2", (3, )),
-                     ("earth_location", [("lats", ">i2"),
-                                         ("lons", ">i2")], (51,)),
+                     ("earth_location", [("lats", ">i4"),
+                                         ("lons", ">i4")], (51,)),
                      ("zero_fill4", ">i4", (2, )),
                      # HRPT MINOR FRAME TELEMETRY
                      ("frame_sync", ">u2", (6, )),
